@@ -132,7 +132,8 @@ type GenOpts struct {
 	MaxReorg    int
 	Sectors     int                                                              // > 0: contract data mostly whole sectors (World.Sectors)
 	LibProver   bool                                                             // honest proofs over sector files come from the library's provers
-	OnBlock     func(g *Gen, b *Builder)                                         // extra actions before Fill (property-specific scenarios)
+	OnBlock     func(g *Gen, b *Builder)                                         // extra actions before Fill (property-specific scenarios); nil: SameBlockScenarios
+	NoScenarios bool                                                             // with OnBlock == nil: do not force same-block combinations
 	BeforeApply func(g *Gen, honest types.Block, bs consensus.V1BlockSupplement) // sealed honest block, not yet applied (record probes here)
 	AfterBlock  func(g *Gen)                                                     // called after each applied block (e.g. to record probes)
 }
@@ -169,6 +170,8 @@ func (g *Gen) Block() bool {
 	b := NewBuilder(g.T, g.C, g.W)
 	if g.Opts.OnBlock != nil {
 		g.Opts.OnBlock(g, b)
+	} else if !g.Opts.NoScenarios {
+		SameBlockScenarios(g, b)
 	}
 	b.Fill(g.Opts.Profile)
 	mode := rapid.IntRange(0, 4).Draw(g.T, "tsMode")
@@ -275,4 +278,42 @@ func (g *Gen) expectAt(h uint64) *Expect {
 		}
 	}
 	return nil
+}
+
+// SameBlockScenarios occasionally (about 2 blocks in 5) forces the same-block combinations that random action
+// mixes rarely produce and that several properties single out: one element touched by two transactions of a block
+// (revise+prove, form+revise, form+prove, repeated v1/v2 revisions, revise+renew, chained ephemeral payments).
+// It is the default OnBlock of every generated chain.
+func SameBlockScenarios(g *Gen, b *Builder) {
+	switch rapid.IntRange(0, 14).Draw(g.T, "scenario") {
+	case 0: // revise then prove a v1 contract inside one block (possible when the window opens at this height)
+		b.V1ReviseThenProve()
+	case 1: // create and revise
+		if b.V1Form() {
+			b.V1ReviseCreatedInBlock()
+		}
+	case 2:
+		b.V1Pay()
+		b.V1Pay() // second payment may spend the first one's outputs
+	case 3:
+		b.AfterV1(func() {
+			b.V2Pay()
+			b.V2Pay()
+		})
+	case 4:
+		b.V1FormThenProve()
+	case 5: // the same contract revised twice (or revised and renewed) inside one block
+		if b.V1Revise() {
+			b.V1ReviseAgainInBlock()
+		}
+		b.AfterV1(func() {
+			if b.V2Revise() {
+				if rapid.Bool().Draw(g.T, "againOrRenew") {
+					b.V2ReviseAgainInBlock()
+				} else {
+					b.V2RenewRevisedInBlock()
+				}
+			}
+		})
+	}
 }
